@@ -16,6 +16,7 @@ import operator
 import common
 from common import enc, dec, err_kind
 from props import c07_hist as H
+from props import c07_zero as Z0
 
 ID = "C07"
 RULE = ("random expression trees (depth<=3 quick / <=4 thorough) over Laurent polynomials with support in [-4,6] and "
@@ -294,7 +295,7 @@ def generate(rng, tier, scale=1):
         cases.extend(_big_cases(rng, tier))
     # histories (shared, mutated and re-used objects; numerically equal arguments of different types) come first: the
     # first H.ISO_ALWAYS of them run in a fresh process each, before this process has touched the library
-    return H.gen_hist(rng, tier, scale) + cases
+    return H.gen_hist(rng, tier, scale) + cases + Z0.generate(rng, tier, scale)
 
 
 def _big_cases(rng, tier):
@@ -580,13 +581,20 @@ def _laws(c):
     return out
 
 
+ZENTRIES = ("zhist", "pynum")
+
+
 def impl(c):
     if c["entry"] == "hist":
         return H.impl(c)
+    if c["entry"] in ZENTRIES:
+        return Z0.impl(c)
     return _impl_plain(c)
 
 
 def request(c):
+    if c["entry"] in ZENTRIES:
+        return Z0.request(c)
     return H.request(c) if c["entry"] == "hist" else c
 
 
@@ -685,6 +693,8 @@ def _prune(terms, tol):
 def compare(c, io, drv):
     if c["entry"] == "hist":
         return H.compare(c, io, drv)
+    if c["entry"] in ZENTRIES:
+        return Z0.compare(c, io, drv)
     out = _compare_plain(c, io, drv)
     if out and not io.get("isolated"):
         # a witness has to fail by itself: once more in a fresh process that has run nothing else
@@ -810,6 +820,8 @@ def _compare_plain(c, io, drv):
 def nontrivial(c, io):
     if c["entry"] == "hist":
         return H.nontrivial(c, io)
+    if c["entry"] in ZENTRIES:
+        return Z0.nontrivial(c, io)
     if "err" in io:
         return False
     e = c["entry"]
@@ -841,6 +853,8 @@ def tally(eng, c, io):
         eng.count("big_case", (c["expr"][0] if e == "expr" else "lagrange, %d points" % len(c["pairs"])))
     if e == "hist":
         return H.tally(eng, c, io)
+    if e in ZENTRIES:
+        return Z0.tally(eng, c, io)
     eng.count("regime", "float (impl-injected, tol 1e-9)" if io.get("float") else "exact")
     if e == "expr":
         t = c["expr"]
@@ -928,6 +942,10 @@ def _shrink_tree(t):
 
 def shrink(c):
     e = c["entry"]
+    if e in ZENTRIES:
+        for c2 in Z0.shrink(c):
+            yield c2
+        return
     if e == "hist":
         n = 0
         for c2 in H.shrink(c):
@@ -1006,6 +1024,8 @@ def classify(c, io, drv):
     e = c["entry"]
     if e == "hist":
         return H.classify(c, io, drv)
+    if e in ZENTRIES:
+        return Z0.classify(c, io, drv)
     if io.get("only_after_earlier_cases"):
         return e + ":only-after-earlier-cases"
     if e == "lagrange":
@@ -1026,4 +1046,4 @@ def classify(c, io, drv):
     return "unclassified"
 
 
-H._IMPL_OTHER.update({"expr": _impl_plain, "laws": _impl_plain, "eq": _impl_plain, "lagrange": _impl_plain})
+H._IMPL_OTHER.update({"zhist": Z0.impl, "pynum": Z0.impl, "expr": _impl_plain, "laws": _impl_plain, "eq": _impl_plain, "lagrange": _impl_plain})
